@@ -134,6 +134,7 @@ def prep_no_garblecache(root):
     shutil.rmtree(os.path.join(root, "garblecache"), ignore_errors=True)
 def prep_stale_linker(root):
     shutil.rmtree(os.path.join(root, "garblecache", "build"), ignore_errors=True)
+    _foreign_linker(root)
     write(os.path.join(root, "garblecache", "tool", "link.version"), "go1.26.0 stale\n")
 
 
@@ -256,7 +257,14 @@ total_ops = total_runs = total_kills = 0; hits = set(); allb = set()
 def prep_none(root): pass
 def prep_no_tool(root):
     shutil.rmtree(os.path.join(root, "garblecache", "tool"), ignore_errors=True)
+def _foreign_linker(root):
+    # a linker that really is another one: the toolchain's unpatched cmd/link (binaries linked with it differ, and crash at start)
+    dst = os.path.join(root, "garblecache", "tool", "link")
+    try: os.remove(dst)
+    except OSError: pass
+    shutil.copyfile(os.path.join(GOROOT_TC, "pkg", "tool", "linux_amd64", "link"), dst); os.chmod(dst, 0o755)
 def prep_stale_stamp(root):
+    _foreign_linker(root)
     write(os.path.join(root, "garblecache", "tool", "link.version"), "go1.26.0 stale\n")
 if tier == "quick":
     # quick: the standard library's entries stay in both caches, so the builds are short; every boundary of the user
@@ -269,11 +277,12 @@ else:
           ("A2-entries-cold", prep_no_garble_entries, False, sel_all_but_mkdirs),
           ("B-linker-cold-rename", prep_no_garblecache, False, lambda ops: sel_tool(ops, 5)),
           ("C-linker-stale-copy", prep_stale_linker, True, lambda ops: sel_tool(ops, 5))]
-if os.environ.get("VERIF_C18_ONLY") == "D": SC = []   # debugging aid
+ONLY = os.environ.get("VERIF_C18_ONLY")   # debugging aid: run one scenario (A, B, C or D); the evidence then says so
+if ONLY: SC = [sc for sc in SC if sc[0].startswith(ONLY)]
 for name, prep, shm, sel in SC:
     o, r, k, h, a = scenario(name, prep, shm, sel)
     total_ops += o; total_runs += r; total_kills += k; hits |= h; allb |= a
-ddrep = scenario_debugdir()
+ddrep = scenario_debugdir() if ONLY in (None, "D") else {"crash_states": 0, "real_kills": 0, "skipped": True}
 total_runs += ddrep["crash_states"] + ddrep["real_kills"]
 
 R.finish({
@@ -281,7 +290,7 @@ R.finish({
     "distinct_nontrivial": len(hits),
     "rule": "real `garble build -p 1` of a 2-package module under a ptrace supervisor that numbers every file-system mutation (open for write/create, write, rename, unlink, mkdir, truncate, chmod, utimens...) "
             "touching GOCACHE, GARBLE_CACHE or the output, and in kill mode SIGKILLs the whole process tree just before mutation K; start states: " + ", ".join(n for n, _, _, _ in SC) + " "
-            "(A: user packages cold; A2: all of GARBLE_CACHE/build empty; B: patched linker absent, rename install; C: stale linker stamp with TMPDIR on another file system = in-place copy install); after each kill the same command is run again on the surviving caches; oracle: exit 0 and binary = uninterrupted reference; "
+            "(A: user packages cold; A2: all of GARBLE_CACHE/build empty; B: patched linker absent, rename install; C: another linker (the unpatched cmd/link) under a stale stamp, with TMPDIR on another file system = in-place copy install); after each kill the same command is run again on the surviving caches; oracle: exit 0 and binary = uninterrupted reference; "
             "distinct_nontrivial = distinct (syscall, normalised path) boundaries actually killed at. "
             "D: `garble -debugdir=<owned, populated dir> build`: every subset of the directory's top-level entries already removed (all states a kill inside os.RemoveAll can leave under any directory order) "
             "and half-emptied sub-trees, each followed by the real build; the emptying phase of a real supervised run is compared with this model and killed for real at three boundaries",
@@ -290,4 +299,4 @@ R.finish({
     "owned_debugdir_scenario": ddrep,
     "distinct_boundaries_in_log_runs": len(allb), "distinct_boundaries_killed_at": len(hits), "deadline_hit": dl.hit,
 }, assumptions=["a kill between two file-system mutations leaves the same persistent state as a kill at the later boundary", "one schedule (-p 1) per start state; a single write torn by SIGKILL is not produced (C07 covers truncation)"],
-   exhaustive=(tier != "quick" and not dl.hit))
+   exhaustive=(tier != "quick" and not dl.hit and not ONLY))
